@@ -23,6 +23,21 @@ type Case struct {
 	P      *model.Project `json:"project"`
 	Extras int            `json:"extras"` // number of valid unreferenced types added for the metamorphic part
 	Esc    []int          `json:"esc,omitempty"` // non-empty: one character of every quoted type name is spelled \uXXXX (which one: this stream)
+	Refuse int            `json:"refuse,omitempty"` // > 0: the withheld types are first offered to the root with a text it has to refuse (which text: this number)
+}
+
+var refusedTexts = []string{"", "# only a comment", "  \n ", "{", "### block\ncomment ###", "1 // {min: }"}
+
+// text: the project as the library gets it; with Refuse set every withheld type is first offered to the root
+// with a text that cannot be registered - a refused registration is no registration
+func (c Case) text(p *model.Project) sut.Project {
+	sp := p.Text(c.layout())
+	if c.Refuse > 0 {
+		for i, w := range p.Withheld {
+			sp.Refused = append(sp.Refused, sut.Named{Name: w, Text: refusedTexts[(c.Refuse+i)%len(refusedTexts)]})
+		}
+	}
+	return sp
 }
 
 // layout: the canonical layout, or the canonical layout with escapes inside the quoted type names
@@ -55,7 +70,7 @@ func oracle(c Case) *ev.Verdict {
 	if p == nil || p.Root == nil {
 		return nil
 	}
-	tp := p.Text(c.layout())
+	tp := c.text(p)
 	ev.Guard("projects", c)
 	o := sut.Observe(tp)
 	ev.Unguard()
@@ -257,11 +272,17 @@ func addReference(t *rapid.T, obj *model.Node, i int, pl pool, label string) {
 	case 2:
 		if len(pl.str) > 0 {
 			ks := pick(pl.str, "k")
+			n := 0
 			for _, k := range obj.Keys {
-				if k.Shortcut { // one key shortcut per object: two could describe the same keys
-					obj.Add(key, model.Scalar("integer", "1"))
-					return
+				if k.Shortcut && k.Name == ks {
+					n = 2 // (the same shortcut twice is a duplicate key)
+				} else if k.Shortcut {
+					n++
 				}
+			}
+			if n >= 2 { // at most two key shortcuts per object, of different types
+				obj.Add(key, model.Scalar("integer", "1"))
+				return
 			}
 			obj.AddShortcut(ks, model.Scalar("integer", fmt.Sprint(i)))
 			return
@@ -391,6 +412,9 @@ func genCase(t *rapid.T) Case {
 	c := Case{P: p, Extras: rapid.IntRange(0, 3).Draw(t, "extras")}
 	if rapid.IntRange(0, 3).Draw(t, "escaped") == 0 {
 		c.Esc = rapid.SliceOfN(rapid.IntRange(0, 11), 2, 8).Draw(t, "esc")
+	}
+	if len(p.Withheld) > 0 && rapid.IntRange(0, 2).Draw(t, "refusedfirst") == 0 {
+		c.Refuse = rapid.IntRange(1, 6).Draw(t, "refuse")
 	}
 	return c
 }
